@@ -276,12 +276,28 @@ func runCrashCase(part string, c *CrashCase) (outcome string, err error) {
 	journal(part, c)
 	script := c.text()
 	call := func(name string, f func()) {
-		defer func() {
-			if p := recover(); p != nil && err == nil {
+		if err != nil {
+			return
+		}
+		// in a goroutine of its own: a call that never comes back (a lock that
+		// was not released, a wait for nothing) is reported, not waited for
+		done := make(chan interface{}, 1)
+		go func() {
+			defer func() { done <- recover() }()
+			f()
+		}()
+		limit := 120 * time.Second
+		if c.Kind == "stress" {
+			limit = 30 * time.Minute
+		}
+		select {
+		case p := <-done:
+			if p != nil && err == nil {
 				err = fmt.Errorf("%s panicked into the caller: %v", name, p)
 			}
-		}()
-		f()
+		case <-time.After(limit):
+			err = fmt.Errorf("%s had not returned after %v (every run has a 5 s context): the call is blocked", name, limit)
+		}
 	}
 	var objs []interface{}
 	switch {
@@ -310,6 +326,9 @@ func runCrashCase(part string, c *CrashCase) (outcome string, err error) {
 		obj := objs[len(objs)-1]
 		call("Dump after a failed Prepare", func() { _ = r.E.Dump() })
 		call("Run after a failed Prepare", func() { _, _ = r.E.Run(obj) })
+		call("a second Run after a failed Prepare", func() { _, _ = r.E.Run(obj) })
+		call("a second Prepare after a failed one", func() { _ = r.E.Prepare() })
+		call("Run after two failed Prepares", func() { _, _ = r.E.Run(obj) })
 		call("Execute after a failed Prepare", func() {
 			out, xerr := r.E.Execute(obj)
 			if xerr == nil && out == nil && err == nil {
